@@ -9,6 +9,7 @@ import Exetera.Props.C10.Unique
 import Exetera.Props.C10.Concat
 import Exetera.Props.C10.Journal
 import Exetera.Props.C10.Transforms
+import Exetera.Props.C10.Csv
 /-!
 # C10 — compiled kernels never touch memory outside their arrays (join kernels part)
 
